@@ -8,9 +8,9 @@ import time
 import lib
 
 ID = 'C14'
-GEN_FILES = ['T_require', 'T_files_build', 'T_lexer', 'T_parser']
+GEN_FILES = ['T_require', 'T_files_build', 'T_lexer', 'T_parser', 'T_pins_parser', 'T_pins_lexer']
 COQ_PROPERTY = 'theories/Properties/C14.vo'
-COQ_EXTRA = ['theories/Proofs/ReqEmbedInstProofs.vo', 'theories/Proofs/SpecLexChunk.vo',
+COQ_EXTRA = ['theories/Proofs/ParserPins.vo', 'theories/Proofs/LexerPins.vo', 'theories/Proofs/ReqEmbedInstProofs.vo', 'theories/Proofs/SpecLexChunk.vo',
              'theories/Proofs/ReqEmbedEchoGood.vo', 'theories/Proofs/ReqEmbedSpecTokens.vo']
 MODEL = ('ExC14', 'c14_main.ml')
 MONITOR = ('MonC14', 'c14_mon_main.ml')
